@@ -1,3 +1,4 @@
 pub mod engine;
+pub mod fuzz;
 pub mod kit;
 pub mod props;
